@@ -255,3 +255,83 @@ func VerifC52_ruleConvert() {
 	vrt.Assert(got == want, "C52/match-origin-allowed")
 	vrt.Assert(gotOrigin == wantOrigin, "C52/match-origin-value")
 }
+
+// ---------------------------------------------------------------- focused checks (seeded-change review)
+
+// concrete upstream Vary lines naming headers that merely contain the letters "origin" (or nothing like it)
+var varyNearOriginC52 = [][]string{
+	{"X-Origin-Country"},
+	{"Accept-Encoding, X-Original-Host"},
+	{"Accept-Encoding", "Sec-Origin-Policy,Cookie"},
+	{"Originator"},
+	{"X-Origin, origin"},
+}
+
+// VerifC52_focused (one entry point for two narrow questions; every harness of this package pays the
+// package initialisation). Part 0, Vary items: the upstream Vary value is a list of field names; "Origin is already listed" is
+// a statement about a whole list item. Upstream line = <0..2 symbolic bytes> "Origin" <0..2 symbolic
+// bytes> over {X - , space *} (so "Origin", "X-Origin", "Origin-X", "X,Origin", " Origin ,X", "*,Origin"
+// ... occur) or one of the concrete shapes above; rule [%origin] (echoes the origin).
+func VerifC52_focused() {
+	if vrt.Choose("part", 2) == 1 {
+		originPortC52()
+		return
+	}
+	var lines []string
+	if vrt.Choose("kind", 2) == 1 {
+		lines = varyNearOriginC52[vrt.Choose("near", len(varyNearOriginC52))]
+	} else {
+		pre := vrt.Bytes("pre", vrt.Range("preLen", 0, vrt.Param("VL", 2)))
+		suf := vrt.Bytes("suf", vrt.Range("sufLen", 0, vrt.Param("VL", 2)))
+		for _, c := range pre {
+			vrt.Assume(c == 'X' || c == '-' || c == ',' || c == ' ' || c == '*')
+		}
+		for _, c := range suf {
+			vrt.Assume(c == 'X' || c == '-' || c == ',' || c == ' ' || c == '*')
+		}
+		lines = []string{string(pre) + "Origin" + string(suf)}
+	}
+	h := bfe_http.Header{}
+	for _, l := range lines {
+		h.Add("Vary", l)
+	}
+	rule := mkRuleC52(0, false)
+	req := &bfe_basic.Request{HttpRequest: &bfe_http.Request{Method: "GET", Header: bfe_http.Header{}}}
+	req.HttpRequest.Header.Set("Origin", "https://a.example")
+	m := newModuleC52()
+	m.setRespHeaderForNonPreflight(req, h, rule)
+	acao := h["Access-Control-Allow-Origin"]
+	vrt.Assert(len(acao) == 1 && acao[0] == "https://a.example", "C52/vary-items-origin-echoed")
+	newToks := tokensC52(h["Vary"])
+	vrt.Assert(hasTokenC52(newToks, "Origin") || hasTokenC52(newToks, "*"), "C52/vary-items-origin-listed-as-item")
+	for _, t := range tokensC52(lines) {
+		vrt.Assert(hasTokenC52(newToks, t), "C52/vary-items-existing-kept")
+	}
+}
+
+// originPortC52 (part 1 of VerifC52_focused): an origin is scheme + host + port; "https://a.example" and "https://a.example:80"
+// are different origins. Rule: [https://a.example, http://b.example]; request Origin = one of the
+// listed origins followed by 0..4 symbolic bytes (":80", ":443", ":8080"[:4], ".x" ...), through
+// the actual-request / preflight header setters.
+func originPortC52() {
+	list := []string{"https://a.example", "http://b.example"}
+	rule := mkRuleC52(0, true)
+	rule.AccessControlAllowOriginMap = map[string]bool{list[0]: true, list[1]: true} // what ruleConvert builds
+	tail := vrt.Str("tail", vrt.Range("tailLen", 0, vrt.Param("TL", 4)))
+	origin := list[vrt.Choose("base", 2)] + tail
+	req := &bfe_basic.Request{HttpRequest: &bfe_http.Request{Method: "GET", Header: bfe_http.Header{}}}
+	req.HttpRequest.Header.Set("Origin", origin)
+	h := bfe_http.Header{}
+	m := newModuleC52()
+	if vrt.Choose("preflight", 2) == 1 {
+		m.setRespHeaderForPreflght(req, h, rule)
+	} else {
+		m.setRespHeaderForNonPreflight(req, h, rule)
+	}
+	if tail == "" {
+		acao := h["Access-Control-Allow-Origin"]
+		vrt.Assert(len(acao) == 1 && acao[0] == origin, "C52/origin-port-listed-origin-granted")
+	} else {
+		vrt.Assert(!hasACAC52(h), "C52/origin-port-other-origin-not-granted")
+	}
+}
